@@ -316,7 +316,7 @@ pub fn run(ctx: &mut Ctx) {
     let seen: Rc<RefCell<Vec<(GrammarDump, GrammarDump)>>> = Rc::new(RefCell::new(vec![]));
     let s2 = seen.clone();
     vh::set_optimize_observer(Some(Box::new(move |b, a| s2.borrow_mut().push((b, a)))));
-    let n_cases = ctx.pick(2500, 200000);
+    let n_cases = ctx.pick(12000, 200000);
     for idx in 0..n_cases {
         if !ctx.mine(idx) {
             continue;
